@@ -199,6 +199,11 @@ def apply_reference(repo):
             continue
         renamed[q] = dict(mapping)
         _rename(fi.node, mapping)
+    try:
+        inl = inline_new_aliases(repo, ref)
+    except RecursionError:
+        inl = {}
+    repo.inlined_aliases = inl
     return renamed
 
 
@@ -241,3 +246,152 @@ def _rename(fnode, mapping):
         walk(c, shadow)
     for st in fnode.body:
         walk_node(st, set())
+
+
+# ----------------------------------------------------------------------------------------------------------------------
+# new single-definition aliases of attribute chains (`blocked = self.ctxt.blocklist`) are inlined in the in-memory AST
+
+def _chain(expr):
+    """attribute chain rooted at a Name -> [root, attr1, ...] else None"""
+    out = []
+    while isinstance(expr, ast.Attribute):
+        out.append(expr.attr)
+        expr = expr.value
+    if isinstance(expr, ast.Name):
+        out.append(expr.id)
+        return list(reversed(out))
+    return None
+
+
+def _attr_writers(repo):
+    """attribute name -> {qualified names of functions that store it}, syntactic and package-wide"""
+    w = {}
+    for q, fi in repo.funcs.items():
+        if fi.is_lambda:
+            continue
+        for n in walk_own(fi.node):
+            if isinstance(n, ast.Attribute) and isinstance(n.ctx, (ast.Store, ast.Del)):
+                w.setdefault(n.attr, set()).add(q)
+            elif isinstance(n, ast.Call) and isinstance(n.func, ast.Name) and n.func.id in ("setattr", "delattr") and len(n.args) >= 2:
+                a = n.args[1]
+                w.setdefault(a.value if isinstance(a, ast.Constant) and isinstance(a.value, str) else "*", set()).add(q)
+    return w
+
+
+def _block_of(st):
+    p = getattr(st, "_parent", None)
+    if p is None:
+        return None, -1
+    for f in ("body", "orelse", "finalbody"):
+        blk = getattr(p, f, None)
+        if isinstance(blk, list) and st in blk:
+            return blk, blk.index(st)
+    return None, -1
+
+
+def _replace_child(parent, old, new):
+    for f, v in ast.iter_fields(parent):
+        if v is old:
+            setattr(parent, f, new)
+            return True
+        if isinstance(v, list):
+            for i, x in enumerate(v):
+                if x is old:
+                    v[i] = new
+                    return True
+    return False
+
+
+def inline_new_aliases(repo, ref):
+    """A local that does not exist in the reference version of a function, is bound exactly once by `x = <attribute chain>`
+    and is only read afterwards, is an alias introduced by a refactoring.  Its reads are replaced (in memory) by the chain,
+    so that rules see the same access paths as before.  The replacement is made only when it preserves the meaning:
+    the binding statement precedes every read in the same block, no statement of the function stores an attribute of the
+    chain or rebinds its root, and no function reachable from a call that executes between the binding and a read stores
+    such an attribute (call graph, over-approximated)."""
+    inlined = {}
+    writers = None
+    cg = None
+    for q, fi in repo.funcs.items():
+        if fi.is_lambda or q not in ref:
+            continue
+        ref_locals = {n for n, _ in ref[q]["locals"]} | set(ref[q]["params"])
+        order, params = _bound_names(fi.node)
+        nested = _nested_uses(fi.node)
+        for name, st in order:
+            if name in ref_locals or name in nested:
+                continue
+            if not (isinstance(st, ast.Assign) and len(st.targets) == 1 and isinstance(st.targets[0], ast.Name)):
+                continue
+            ch = _chain(st.value)
+            if ch is None or len(ch) < 2:
+                continue
+            stores = [n for n in walk_own(fi.node) if isinstance(n, ast.Name) and n.id == name and isinstance(n.ctx, (ast.Store, ast.Del))]
+            if len(stores) != 1:
+                continue
+            loads = [n for n in walk_own(fi.node) if isinstance(n, ast.Name) and n.id == name and isinstance(n.ctx, ast.Load)]
+            if not loads:
+                continue
+            if any(isinstance(getattr(x, "_parent", None), ast.Lambda) or _inside(x, (ast.Lambda,), fi.node) for x in loads):
+                continue
+            blk, idx = _block_of(st)
+            if blk is None:
+                continue
+            later = set()
+            for s in blk[idx + 1:]:
+                for x in ast.walk(s):
+                    later.add(id(x))
+            if not all(id(x) in later for x in loads):
+                continue
+            root, attrs = ch[0], set(ch[1:])
+            # the root is not rebound and no attribute of the chain is stored in this function
+            if any(isinstance(n, ast.Name) and n.id == root and isinstance(n.ctx, (ast.Store, ast.Del)) for n in walk_own(fi.node)):
+                continue
+            if writers is None:
+                writers = _attr_writers(repo)
+            if any(q in writers.get(a, ()) for a in attrs) or q in writers.get("*", ()):
+                continue
+            # calls executed between the binding and the last read (over-approximated: every call in the following statements
+            # of the block up to the last statement that reads the alias) must not reach a writer of a chain attribute
+            last = max(i for i, s in enumerate(blk) if i > idx and any(id(x) in {id(y) for y in ast.walk(s)} for x in loads))
+            calls = [c for s in blk[idx + 1:last + 1] for c in ast.walk(s) if isinstance(c, ast.Call)]
+            bad_fns = set()
+            for a in attrs:
+                bad_fns |= writers.get(a, set())
+            bad_fns |= writers.get("*", set())
+            if calls and bad_fns:
+                if cg is None:
+                    from .callgraph import CallGraph
+                    cg = CallGraph(repo)
+                direct = {e.callee.qual for e in cg.callees(q) if any(e.call is c for c in calls)}
+                reach = cg.reachable(sorted(direct)) if direct else set()
+                reach = set(reach) | direct
+                if reach & bad_fns:
+                    continue
+                # calls the graph could not resolve at all are library / builtin calls (len, isinstance, ...): they cannot store
+                # attributes of package objects unless they call back, which the by-name over-approximation already covers
+            for x in loads:
+                new = ast.parse(ast.unparse(st.value), mode="eval").body
+                for y in ast.walk(new):
+                    ast.copy_location(y, x)
+                    for c in ast.iter_child_nodes(y):
+                        c._parent = y
+                new._parent = x._parent
+                new._alias_of = name
+                _replace_child(x._parent, x, new)
+                p = new._parent
+                while p is not None:
+                    if hasattr(p, "_norm_text"):
+                        del p._norm_text
+                    p = getattr(p, "_parent", None)
+            inlined.setdefault(q, []).append(name)
+    return inlined
+
+
+def _inside(node, kinds, stop):
+    p = getattr(node, "_parent", None)
+    while p is not None and p is not stop:
+        if isinstance(p, kinds):
+            return True
+        p = getattr(p, "_parent", None)
+    return False
